@@ -919,10 +919,9 @@ class FunctionVerifier:
                 t = self.reg.spec_eval(ex, s, cl.fn, self.reg.lambda_env(cl.fn, renv), pre_heap=pre_heap)
                 goal = ex.truth(s, t)
             except EngineUnsupported as e:
-                goal = z3.BoolVal(False)
-                ex.oblige(s, f"post[{cl.name}]", goal, kind="post", serves=cl.serves, clause=cl.name,
-                          assume_after=False, extra={"note": f"postcondition not evaluable on this path: {e}"})
-                continue
+                # a clause that cannot be evaluated on this path (e.g. it reads a field the code no longer sets) is not a
+                # refutation: the function is outside the verifier's reach and its bounded stand-in decides
+                raise EngineUnsupported(f"postcondition {cl.name} not evaluable on a path: {e}")
             ex.oblige(s, f"post[{cl.name}]", goal, kind="post", serves=cl.serves, clause=cl.name, assume_after=False)
         if c.result_is is not None:
             try:
